@@ -40,6 +40,7 @@ func (o *OverlayFS) Open(name string) (fs.File, error) {
 func (o *OverlayFS) ReadDir(name string) ([]fs.DirEntry, error) {
 	merged := make(map[string]fs.DirEntry)
 	var lastErr error
+	found := false
 
 	// Iterate through chain (upper layers first) so upper layers override lower
 	for _, chainfs := range o.chainFS {
@@ -49,6 +50,7 @@ func (o *OverlayFS) ReadDir(name string) ([]fs.DirEntry, error) {
 
 		entries, err := fs.ReadDir(chainfs, name)
 		if err == nil {
+			found = true
 			for _, e := range entries {
 				// Only add if not already present (upper layers take precedence)
 				if _, exists := merged[e.Name()]; !exists {
@@ -61,7 +63,7 @@ func (o *OverlayFS) ReadDir(name string) ([]fs.DirEntry, error) {
 	}
 
 	// If no filesystem had this directory, return error
-	if len(merged) == 0 && lastErr != nil {
+	if !found && lastErr != nil {
 		return nil, lastErr
 	}
 
